@@ -16,6 +16,12 @@ CHECKS = {
  "C11": ("runtime monitor: round-trip equality oracle (harness encryptor vs library decryptor) and encrypted/plain twin comparison",
          "exploration: the harness's own XML-Enc encryptor produces every advertised algorithm combination for every plaintext length residue; the real DecryptBytes/Decrypt/ValidateEncodedResponse must give back the exact bytes / the same outcome and data as the plaintext twin, for five ways of configuring the SP key",
          "OAEP uses one hash for label and MGF1; setter keys are *rsa.PrivateKey", "4/C11"),
+ "C13": ("runtime monitor: recipient-side verification oracle + recording crypto.Signer spies over all key configurations",
+         "exploration: every signed builder output is serialised, re-parsed and verified like a recipient would (position, declared algorithms, digest recomputed with the configured canonicaliser, dsig validation trusting only the expected certificate, raw SignatureValue check with the expected public key) across all 15 key-source subsets x algorithms x canonicalisers x message kinds; spies record which key actually signed",
+         "algorithms compatible with the key type only; recipient parser is Go's", "4/C13"),
+ "C15": ("runtime monitor: expected-tree oracle over re-parsed builder output",
+         "exploration: each builder's output is re-parsed and its namespace-resolved tree (names, exact attribute sets, order, text) compared with the tree the configuration calls for, over value classes, option combinations and clocks in 27 zones",
+         "recipient parser is Go's encoding/xml via etree", "4/C15"),
 }
 
 NOT_BUILT = "monitor not built yet in this session (planned in DESIGN.md section 4)"
